@@ -15,6 +15,8 @@ for l in open('/verif/properties.jsonl'):
         t=open('/verif/tools/seed_prompt.txt').read().replace('WORKTREE',W).replace('OUTDIR',O).replace('PROPERTY',prop)
         if int(R)>=2:
             t+="\nAdditional guidance for this round: other developers have already tried the most classic ideas (an RAII guard dropped too early by `let _ =`, deleting or weakening a barrier/ordering, swapping two adjacent statements, skipping a check on a re-used entry, capturing a raw descriptor instead of an owner). Find a DIFFERENT mechanism: for instance an error/early-return path that forgets a step, state that is updated in the wrong order only on a rarely taken branch, an off-by-one or wrong-width arithmetic on a boundary value, a cached value that goes stale, an optimisation that is only valid single-threaded, or a change in one crate/file whose assumption is silently relied upon by another.\n"
+        if int(R)>=3:
+            t+="\nFurther guidance for round 3: strongly prefer a defect that needs TWO cooperating code sites (e.g. a helper function whose contract you change slightly - return value meaning, ownership, ordering, which thread/at which depth it runs - plus a caller that relied on the old contract), or one that only shows on an error/failure/cleanup path (a syscall failing, a panic being unwound, a constructor failing half-way, a descriptor or allocation being reused), or on a boundary configuration (maximum sizes, the highest/lowest valid signal numbers, zero-length sets, the same object registered twice). Single-line mutations of the core algorithm have all been tried already.\n"
         open(O+'/prompt.txt','w').write(t)
 PY
 done
